@@ -516,6 +516,9 @@ def c10(tier):
         S('reply-upgrade-specials', 'run_reply', 'plain reply, status 101, 9-byte Upgrade value over token characters PLUS the other visible ASCII characters '
           '({ } % ! # $ & \' * + . ^ _ ` | ~): whatever the value, an incorrect reply ends in Rejected (never in an escaped exception or a bare Disconnected)',
           templates=['plain'], sym_status=False, sym_case=False, upgrade_class='token+'),
+        S('reply-wide-tokens', 'run_reply_wide', 'otherwise correct reply in which ONE of status / Upgrade value / Accept value is a hole of symbolic bytes '
+          '1-2 bytes LONGER than the correct token, every byte >= 0x21 incl. all non-ASCII bytes (UTF-8 encoded Unicode digits, case-folding '
+          'look-alikes such as U+212A, Unicode white space such as U+00A0/U+3000): never Ready, always Rejected', xval_stride=7),
         S('fresh-key', 'run_fresh_key', 'one WebSocket object connect()ed 3 times; os.urandom(16) symbolic per call; the key of request i must decode to the draw made for attempt i; a reply recorded from attempt 1 is optionally replayed later', xval_stride=2),
         S('oversize', 'run_oversize', 'header block of 16384-3..16384+3 bytes, terminated or not, one read or cut at a symbolic position around the bound'),
     ]
